@@ -87,7 +87,7 @@ def build(case):
     sf = case.get("silent_from")
     if fam == "nxp":
         sim = SimNxp(case["product"], uid=bytes(case["uid"]), formatted=False, nak=case.get("nak", "timeout"),
-                     auth0=case.get("auth0"), prot=case.get("prot", False), mut=mut, silent_from=sf,
+                     auth0=case.get("auth0"), prot=case.get("prot", False), mut=mut, silent_from=sf, gone_after=case.get("gone_after"),
                      rnd=random.Random(case["id"]))
         m = sim.sectors[0]
         img = bytes(case["image"])
@@ -433,6 +433,9 @@ def directed():
     out.append(dict(std, id="d-fstd-service-of-no-type", systems=[bad]))
     bad2 = [0x0003, [["area", 0, 0xFFFE], ["service", 0x005B, [[1] * 16]]]]           # attribute 011011b
     out.append(dict(std, id="d-fstd-service-attr-1b", systems=[bad2]))
+    mixed = [0x0003, [["area", 0, 0xFFFE], ["service", 0x0048, [[1] * 16]], ["service", 0x004C, [[2] * 16]], ["service", 0x004F, [[2] * 16]],
+                      ["service", 0x0050, [[3] * 16]], ["service", 0x0091, [[4] * 16]], ["service", 0x008B, [[5] * 16]]]]
+    out.append(dict(std, id="d-fstd-one-number-several-types", systems=[mixed]))      # Random, Cyclic and Purse under one service number
     out.append(dict(std, id="d-fstd-area-ends-before-start", systems=[[0x0003, [["area", 0x1000, 0x0010], ["area", 0x0040, 0x0000],
                                                                                   ["service", 0x004B, [[1] * 16]]]]]))
     for prod in ("NT3H1101", "NT3H1201", "ULC", "NTAG213", "NTAG203", "MF0UL21", "UL"):
@@ -448,6 +451,9 @@ def directed():
     for sf in (1, 2, 3):
         out.append(dict(id="d-nxp-gone-at-%d" % sf, fam="nxp", product="NTAG203", uid=[4, 1, 2, 3, 4, 5, 6], nak="byte",
                         image=[0xE1, 0x10, 0x12, 0] + [3, 0, 0xFE, 0], silent_from=sf))
+    for prod, k in (("NTAG203", 1), ("NTAG203", 2), ("ULC", 1), ("NTAG213", 2), ("UL", 1)):
+        out.append(dict(id="d-nxp-%s-gone-after-%d" % (prod, k), fam="nxp", product=prod, uid=[4, 1, 2, 3, 4, 5, 6],
+                        nak="byte" if prod == "NTAG203" else "timeout", image=[0xE1, 0x10, 0x12, 0] + [3, 0, 0xFE, 0], gone_after=k))
     out.append(dict(id="d-nxp-ulc-auth-probe-short", fam="nxp", product="ULC", uid=[4, 1, 2, 3, 4, 5, 6],
                     image=[0xE1, 0x10, 0x12, 0] + [3, 0, 0xFE, 0], mut={"AUTH1": [["raw", [0xAF]]]}))
     for size in (120, 512):
@@ -458,6 +464,8 @@ def directed():
     for kind in ("lite", "lites"):
         out.append(dict(id="d-%s-dump" % kind, fam="lite", kind=kind, user={"0": list(attr_block(nmaxb=13, ln=5)), "1": [0x41] * 16}))
         out.append(dict(id="d-%s-dump-silent" % kind, fam="lite", kind=kind, user={"0": list(attr_block(nmaxb=13, ln=5))}, silent_from=18))
+        out.append(dict(id="d-%s-dump-late-errors" % kind, fam="lite", kind=kind, user={"0": list(attr_block(nmaxb=13, ln=5))},
+                        mut={"READ": [None] * 24 + [["raw", [1, 0xA8]]] * 8}))
         out.append(dict(id="d-%s-dump-reg-unreadable" % kind, fam="lite", kind=kind, user={"0": list(attr_block(nmaxb=13, ln=5))},
                         mut={"READ": [None] * 16 + [["raw", [1, 0xA8]]]}))
     out.append(dict(id="d-plug", fam="plug", ic=0xE0, blocks=[list(attr_block(nmaxb=2, ln=20))] + [[1] * 16, [2] * 16]))
@@ -557,7 +565,7 @@ def stage(ck, tier, seed):
         traces.append(tr)
         infos[c["id"]] = info
         by_id[c["id"]] = c
-        plain = not c.get("mut") and c.get("silent_from") is None and c.get("hr1") is None
+        plain = not c.get("mut") and c.get("silent_from") is None and c.get("hr1") is None and c.get("gone_after") is None
         if plain and info["cls"] != want:
             wrong.append((c["id"], want, info["cls"]))
     for cid, want, got in wrong:
